@@ -282,6 +282,18 @@ func c16Run(c *fw.C, caseID string) {
 		overlap := uint64(0)
 		switch shape {
 		case "side-chain", "side-chain-corrupt":
+			// half of the time the other chain is made longer first, so that the node is asked to switch (back) to a
+			// branch it held and verified before — possibly with a corrupted element among the momentums it once held
+			if src.Height() <= N.Height() && r.Intn(2) == 0 {
+				w := wA
+				if src == B {
+					w = wB
+				}
+				if !grow(src, w, int(N.Height()-src.Height())+1+r.Intn(3)) {
+					return
+				}
+				c.Count("side_chains_grown_to_ask_for_a_switch_back", 1)
+			}
 			from := fp + 1
 			if r.Intn(2) == 0 && fp > 8 {
 				overlap = uint64(r.Intn(7)) // the delivery starts with momentums the node already holds
